@@ -170,7 +170,7 @@ structure Zone where
   name : List Char
   first : Period
   trans : List (Int × Period)     -- (first UTC second of the period, period), ascending
-deriving Repr
+deriving Repr, DecidableEq
 
 def utcPeriod : Period := { off := 0, dst := false, abbr := "UTC".toList }
 def utcZone : Zone := { name := "UTC".toList, first := utcPeriod, trans := [] }
@@ -503,21 +503,22 @@ group index still allowed; `fuel` bounds the number of items (the input length i
 def durItems (tbl : UnitTable) : Nat → Nat → DurFields → List Char → Option DurFields
   | 0, _, _, _ => none
   | fuel + 1, next, f, s =>
-    match dropWs s with
-    | [] => some f
-    | c :: cs =>
-      let (num, rest) := spanDigits (c :: cs)
-      match rest with
+    if (dropWs s).isEmpty then some f
+    else
+      let num := (spanDigits (dropWs s)).1
+      match (spanDigits (dropWs s)).2 with
       | p :: rest' =>
         if isDecPoint p then
           -- seconds mantissa (optional) + fraction (required) + seconds unit; must be the last item
-          let (fra, rest'') := spanDigits rest'
-          let (word, tl) := spanAlpha (dropWs rest'')
+          let fra := (spanDigits rest').1
+          let word := (spanAlpha (dropWs (spanDigits rest').2)).1
+          let tl := (spanAlpha (dropWs (spanDigits rest').2)).2
           if fra.isEmpty || next > 5 || unitIndex tbl word != some 5 || !(dropWs tl).isEmpty then none
           else some { f with s := (digitsValAcc 0 num).getD 0, sFra := some fra }
         else if num.isEmpty then none
         else
-          let (word, tl) := spanAlpha (dropWs (p :: rest'))
+          let word := (spanAlpha (dropWs (p :: rest'))).1
+          let tl := (spanAlpha (dropWs (p :: rest'))).2
           match unitIndex tbl word with
           | some idx =>
             if idx < next then none
